@@ -798,11 +798,20 @@ def estimate_symbolic_duration(
             # NOTE: Guess tuplets (Naive) it doesn't cover composite durations from tied notes.
             type = SYM_STRAIGHT_DURS[i + 1]["type"]
             normal_notes = 2
-            while (normal_notes * STRAIGHT_DURS[i + 1] / qdur) % 1 > eps:
+            while True:
+                # nearest whole number of notes; accept it only if the tuplet value
+                # it denotes is the requested duration (within eps)
+                actual_notes = int(round(normal_notes * STRAIGHT_DURS[i + 1] / qdur))
+                if (
+                    actual_notes > 0
+                    and abs(normal_notes * STRAIGHT_DURS[i + 1] / actual_notes - qdur)
+                    < eps
+                ):
+                    break
                 normal_notes += 1
             return {
                 "type": type,
-                "actual_notes": math.ceil(normal_notes * STRAIGHT_DURS[i + 1] / qdur),
+                "actual_notes": actual_notes,
                 "normal_notes": normal_notes,
             }
 
